@@ -14,6 +14,7 @@ T(col, neg, count, kk, key) == [col |-> col, neg |-> neg, count |-> count, kk |-
 A(name, hasVal, val, needQ) == [name |-> name, hasVal |-> hasVal, val |-> val, needQ |-> needQ]
 O(neg, name, arg) == [neg |-> neg, name |-> name, arg |-> arg]
 
+DENY == A("deny", FALSE, << >>, FALSE)
 ID == A("id", TRUE, <<"1">>, FALSE)
 PH == A("phase", TRUE, <<"2">>, FALSE)
 PASS == A("pass", FALSE, << >>, FALSE)
@@ -48,10 +49,11 @@ ActLists == {<<ID, PH, A(n, TRUE, x.v, x.q), PASS>> : n \in {"msg", "logdata", "
          <<ID, PH, A("deny", FALSE, << >>, FALSE), A("status", TRUE, <<"403">>, FALSE), A("capture", FALSE, << >>, FALSE)>>,
          <<ID, A("severity", TRUE, <<"2">>, FALSE), A("ver", TRUE, <<"v", ".", "1">>, FALSE), A("multimatch", FALSE, << >>, FALSE), PASS>>,
          <<ID, PH, A("block", FALSE, << >>, FALSE)>>,
+         \* several disruptive actions, the first one leading the list: the last one written wins
+         <<DENY, ID, PH, PASS>>, <<DENY, A("status", TRUE, <<"403">>, FALSE), ID, PH, A("drop", FALSE, << >>, FALSE)>>, <<ID, PASS, PH, DENY>>,
          <<ID>>}
 
 CHAIN == A("chain", FALSE, << >>, FALSE)
-DENY == A("deny", FALSE, << >>, FALSE)
 \* chains: a starter carrying the disruptive action and 1-2 links (no id, no phase, no disruptive action of their own)
 Starters == {[targets |-> DefTargets, op |-> DefOp, acts |-> <<ID, PH, A("msg", TRUE, x.v, x.q), DENY, CHAIN>>] : x \in {z \in Vals : z.v \in {<<"x">>, <<"a", COM, "b">>, <<"a", BS, SQ>>}}}
 Links == {[targets |-> ts, op |-> o, acts |-> as] :
